@@ -66,7 +66,7 @@ func (s *wstub) answer(kind, key string) int {
 
 func newWStub(name string, salt uint64) *wstub {
 	s := &wstub{name: name, salt: salt}
-	s.srv = httptest.NewUnstartedServer(http.HandlerFunc(s.serve))
+	s.srv = bed.NewUnstartedServer(http.HandlerFunc(s.serve))
 	s.srv.Config.ErrorLog = nil
 	s.srv.Start()
 	return s
